@@ -68,7 +68,8 @@ def state(world):
         'ktimers': [round(t - CLOCK.now, 4) for (t, _, _, _) in world.kernel.timers],
         'unowned': sorted(kp.state for kp in world.kernel.spawn_log
                           if kp.state != REAPED and world.watcher(kp.watcher or '') is None),
-        'hook_state': sorted((k, min(v, 3)) for k, v in getattr(world, 'hook_counters', {}).items()),
+        'popen_attempts': world.kernel.popen_attempts if world.kernel.popen_fault is not None else None,
+        'hook_state': sorted(getattr(world, 'hook_counters', {}).items()),
     }
 
 
